@@ -92,6 +92,10 @@ RULE = ("Hypothesis RuleBasedStateMachine (20/30 steps) parameterised by the gro
         "slice lookup and iteration at large indices, observe(), and for every broadcast attribute list / tuple / ndarray of "
         "exactly the group length (read back member by member), length n-1 and n+1 (ValueError, nothing changed) and a "
         "scalar; every such case counts as non-trivial. "
+        "Falsy-but-valid values: '' as a name (k in 0,1; also looked up by name), 0 / 0.0 for probabilities and depths, False "
+        "flags occur in the random rules; finish() additionally, for each such attribute, makes the members truthy, assigns a "
+        "sequence whose first element is the falsy value, makes them truthy again and assigns the falsy value as scalar (names: "
+        "lookup by the old name must fail, group[''] must return the un-named member). "
         "Non-trivial: a history in which a sequence with at least two different values was assigned element-wise to a "
         "group of size >= 2 and read back, and at least one wrong-length assignment was attempted after a successful "
         "assignment; for BolometerCamera (no broadcast attributes): size >= 2 at an observe(), a by-name lookup and a "
@@ -322,7 +326,7 @@ class Hist:
         self.props = {}
         # evidence
         self.sets, self.wrongs, self.kinds, self.idx, self.lab = set(), set(), set(), set(), set()   # sets: (attr, "scalar"|"seq")
-        self.rej, self.sizes, self.held_sets = set(), set(), set()
+        self.rej, self.sizes, self.held_sets, self.falsy_sets = set(), set(), set(), set()
         self.n_changes = 0
         self.nt_distinct = self.nt_wrong_after = False
         self.cam_observed2 = self.cam_named = self.rejected = False
@@ -706,6 +710,8 @@ class Hist:
                 self.invariant()
             if attr not in self.held_sets:
                 self._sweep_held(attr)
+            if attr in self.FALSY:
+                self._sweep_falsy(attr)
         for i, kind in enumerate(rejected_kinds(self.gname)):
             if kind not in self.rej:
                 self.do_member_add_wrong(dict(self._SYNTH_MEMBER, v=i, k=i))
@@ -725,6 +731,8 @@ class Hist:
             ctx.label("reject:%s.%s" % (self.gname, kk))
         for a in sorted(self.held_sets):
             ctx.label("heldscalar:%s.%s" % (self.gname, a))
+        for a in sorted(self.falsy_sets):
+            ctx.label("falsy:%s.%s" % (self.gname, a))
         ctx.label(*sorted("kind:" + k for k in self.kinds))
         ctx.label(*sorted("index:" + k for k in self.idx))
         ctx.label(*sorted("size:%d" % x for x in self.sizes))        # every group size that was checked in this history
@@ -861,6 +869,9 @@ class Hist:
         of this and of every other attribute of the same storage type."""
         kind = SPECS[attr].kind
         if attr == "names":
+            if k in (0, 1):
+                self.lab.add("falsy:empty_name")
+                return ""                     # un-naming a member through the group (Node.name takes '' but not None)
             return NAME_POOL[int(u * 8) % 8]
         if kind == "engine":
             return ENGINES[k % 3]()
@@ -975,6 +986,49 @@ class Hist:
         if all(valid_for(other, v, m) for m in self.mm):
             self._assign_scalar_value(other, v, "%s.%s" % (self.gname, other))
             self.invariant()
+
+    FALSY = {"names": ("", None), "ray_extinction_prob": (0.0, 0.5), "ray_important_path_weight": (0.0, 0.5),
+             "targetted_path_prob": (0.0, 0.5), "ray_max_depth": (0, 7), "ray_extinction_min_depth": (0, 4),
+             "ray_importance_sampling": (False, True), "quiet": (False, True), "display_progress": (False, True),
+             "accumulate": (False, True)}
+
+    def _assign_seq_values(self, attr, vals, kind="list"):
+        seq = tuple(vals) if kind == "tuple" else list(vals)
+        with self.ctx.cut("assign-%s:%s.%s" % (kind, self.gname, attr)):
+            setattr(self.group, attr, seq)
+        for j, v in enumerate(vals):
+            self._apply(j, attr, v)
+        self.sets.add((attr, "seq"))
+        self.invariant()
+
+    def _sweep_falsy(self, attr):
+        """members hold truthy values -> a sequence whose first element is the falsy-but-valid value ('' / 0 / 0.0 / False),
+        then truthy again -> the falsy value as scalar; for names: lookup by the old name fails, by '' finds the member."""
+        falsy, truthy = self.FALSY[attr]
+        n = len(self.mm)
+        if n < 1:
+            return
+        what = "%s.%s" % (self.gname, attr)
+        if attr == "names":
+            old = ["old%d" % j for j in range(n)]
+            self._assign_seq_values(attr, old)
+            self._assign_seq_values(attr, [""] + ["new%d" % j for j in range(1, n)], "tuple" if n % 2 else "list")
+            self.ctx.raises((ValueError, LookupError), "index:name-missing", self.group.__getitem__, old[0])
+            with self.ctx.cut("index:name"):
+                got = self.group[""]
+            self.ctx.check(got is self.members[0], "index:name", "group[''] does not return the member whose name was set to ''")
+            self.lab.add("falsy:name_lookup")
+        else:
+            self._assign_scalar_value(attr, truthy, what)
+            self.invariant()
+            self._assign_seq_values(attr, [falsy] + [truthy] * (n - 1), "tuple" if n % 2 else "list")
+            self._assign_scalar_value(attr, truthy, what)
+            self.invariant()
+            self._assign_scalar_value(attr, falsy, what)
+            self.invariant()
+            self.lab.add("falsy:scalar")
+        self.lab.add("falsy:seq")
+        self.falsy_sets.add(attr)
 
     def _sweep_held(self, attr):
         """heterogeneous group -> the value of the first member as scalar; last member edited directly -> its value as scalar"""
@@ -1369,7 +1423,9 @@ class Hist:
                       lambda: "group[%r] returns %d members %s, expected %s" % (sl, len(got), [x.name for x in got], [x.name for x in want]))
             self.idx.add("slice")
         else:
-            name = NAME_POOL[a["i"] % 8]
+            name = (NAME_POOL + ["", ""])[a["i"] % 10]
+            if name == "":
+                self.idx.add("name_empty")
             hits = [m for m, mm in zip(self.members, self.mm) if mm["names"] == name]
             if len(hits) == 1:
                 with ctx.cut("index:name"):
@@ -1533,7 +1589,7 @@ def _large_seq(attr, n, salt, shared):
     kind = SPECS[attr].kind
     J = range(n)
     if attr == "names":
-        return ["m%d_%d" % (salt, j) for j in J]
+        return ["" if j == 3 + salt else "m%d_%d" % (salt, j) for j in J]      # one member is un-named through the group
     if kind == "engine":
         return [SerialEngine() for _ in J]
     if kind == "pipelines":
@@ -1739,6 +1795,8 @@ def _required():
                     out.append("hist:setscalar:%s.%s" % (g, a))
                     out.append("hist:heldscalar:%s.%s" % (g, a))      # scalar = value held by some, not all, members
                 out.append("hist:wrong:%s.%s" % (g, a))
+                if a in Hist.FALSY:
+                    out.append("hist:falsy:%s.%s" % (g, a))          # falsy-but-valid value ('' / 0 / 0.0 / False) over a truthy one
         for kk in rejected_kinds(g):
             out.append("hist:reject:%s.%s" % (g, kk))
     out += ["hist:kind:scalar", "hist:kind:list", "hist:kind:tuple", "hist:kind:ndarray",
@@ -1762,6 +1820,7 @@ def _required():
             "hist:second:built", "hist:second:built_before_first_use", "hist:interference",
             "hist:interference:first_group_used_after_second", "hist:repeat:held_results", "hist:repeat:same_call_twice", "hist:ctor:bare",
             "hist:member:default_pipelines",
+            "hist:falsy:seq", "hist:falsy:scalar", "hist:falsy:name_lookup", "hist:falsy:empty_name", "hist:index:name_empty",
             "hist:heldscalar:first", "hist:heldscalar:last", "hist:heldscalar:middle", "hist:seq:current_except_one", "hist:member_edit"]
     if "member:irvb" not in excluded_for("BolometerCamera"):
         out.append("hist:member:irvb")
